@@ -34,6 +34,13 @@ func backSlice(v ssa.Value) *slice {
 			}
 		case *ssa.UnOp:
 			if y.Op == token.MUL {
+				if fa, isFA := y.X.(*ssa.FieldAddr); isFA && len(gNewTypes) > 0 {
+					if k, isNew := newTypeFieldKey(fa); isNew {
+						for _, v := range gNewTypeStores[k] {
+							rec(v)
+						}
+					}
+				}
 				if c := cellOf(y.X); c != nil {
 					fn := y.Parent()
 					rd := rdOf(fn)
